@@ -171,12 +171,41 @@ func c16AccountsProvider(indices ...uint64) *mockaccountmanager.ValidatingAccoun
 	return p
 }
 
-func c16NewAttester(ctx context.Context, client eth2client.Service, slot uint64, rec *c16Recorder) *standardattester.Service {
+// c16CallEpochShift: call k of a history is for a slot 4 epochs after that of call k-1 (the duty services
+// remember, on purpose, what they did per slot / per epoch and validator).
+func c16ShiftedSlot(sh map[string]string, k int) uint64 { return c16Slots(sh) + uint64(128*(k-1)) }
+
+// c16NodeInst: what the duty service instances share: a scripted node read through the real client
+// library, a recording submitter, a virtual chain time.
+type c16NodeInst struct {
+	node   *c16Server
+	client eth2client.Service
+	rec    *c16Recorder
+	ct     *verifsupport.ChainTime
+	gate   *c16Gate
+}
+
+func c16NewNodeInst(ctx context.Context, gated ...string) *c16NodeInst {
+	in := &c16NodeInst{node: c16NewNode(c16NodeVersion("teku")), rec: &c16Recorder{}, ct: verifsupport.NewChainTime(32, 12*time.Second), gate: &c16Gate{}}
+	for _, prefix := range gated {
+		in.node.Gate(prefix, in.gate)
+	}
+	in.client = c16NodeClient(ctx, in.node)
+	return in
+}
+
+func (in *c16NodeInst) Gate() *c16Gate { return in.gate }
+func (in *c16NodeInst) Close() {
+	in.gate.Release()
+	in.node.Close()
+}
+
+func c16NewAttester(ctx context.Context, client eth2client.Service, ct *verifsupport.ChainTime, rec *c16Recorder) *standardattester.Service {
 	s, err := standardattester.New(ctx,
 		standardattester.WithLogLevel(c16LogLevel()),
 		standardattester.WithProcessConcurrency(2),
 		standardattester.WithMonitor(nullmetrics.New()),
-		standardattester.WithChainTime(c16ChainTimeAt(slot)),
+		standardattester.WithChainTime(ct),
 		standardattester.WithSpecProvider(mock.NewSpecProvider()),
 		standardattester.WithAttestationDataProvider(client.(eth2client.AttestationDataProvider)),
 		standardattester.WithAttestationsSubmitter(rec),
@@ -189,15 +218,28 @@ func c16NewAttester(ctx context.Context, client eth2client.Service, slot uint64,
 	return s
 }
 
-func c16RunAttester(ctx context.Context, sh map[string]string) c16Res {
-	slot := c16Slots(sh)
-	node := c16NewNode(c16NodeVersion("teku"))
-	defer node.Close()
-	node.Set("/eth/v1/validator/attestation_data", c16AttestationDataAnswer(sh["body"]))
-	client := c16NodeClient(ctx, node)
-	rec := &c16Recorder{}
-	s := c16NewAttester(ctx, client, slot, rec)
-	atts, err := s.Attest(ctx, c16AttesterDuty(sh["duty"], slot))
+// ---- attester
+
+type c16AttesterInst struct {
+	*c16NodeInst
+	s *standardattester.Service
+}
+
+func c16NewAttesterInst(ctx context.Context, _ map[string]string) c16Instance {
+	in := &c16AttesterInst{c16NodeInst: c16NewNodeInst(ctx, "/eth/v1/validator/attestation_data")}
+	in.s = c16NewAttester(ctx, in.client, in.ct, in.rec)
+	return in
+}
+
+func (in *c16AttesterInst) Prepare(_ int, sh map[string]string) {
+	in.node.Set("/eth/v1/validator/attestation_data", c16AttestationDataAnswer(sh["body"]))
+}
+
+func (in *c16AttesterInst) Invoke(ctx context.Context, k int, sh map[string]string) c16Res {
+	slot := c16ShiftedSlot(sh, k)
+	in.ct.SetSlot(slot)
+	before := in.rec.Count()
+	atts, err := in.s.Attest(ctx, c16AttesterDuty(sh["duty"], slot))
 	if err != nil {
 		return c16Err(err.Error())
 	}
@@ -206,27 +248,57 @@ func c16RunAttester(ctx context.Context, sh map[string]string) c16Res {
 			return c16Err("attestation does not hash: " + err.Error())
 		}
 	}
-	if rec.Count() == 0 {
-		return c16Err("nothing submitted")
+	if n := in.rec.Count() - before; n > 0 {
+		return c16OK(fmt.Sprintf("%d attestations", n))
 	}
-	return c16OK(fmt.Sprintf("%d attestations", rec.Count()))
+	return c16Err("nothing submitted")
 }
 
-func c16RunAggregator(ctx context.Context, sh map[string]string) c16Res {
-	slot := c16Slots(sh)
-	node := c16NewNode(c16NodeVersion("teku"))
-	defer node.Close()
-	attData := &phase0.AttestationData{Slot: phase0.Slot(slot), Index: 0, BeaconBlockRoot: phase0.Root{0xbb},
+// ---- attestation aggregator
+
+type c16AggregatorInst struct {
+	*c16NodeInst
+	s *standardaggregator.Service
+}
+
+func c16AggregateData(slot uint64) *phase0.AttestationData {
+	return &phase0.AttestationData{Slot: phase0.Slot(slot), Index: 0, BeaconBlockRoot: phase0.Root{0xbb},
 		Source: &phase0.Checkpoint{Epoch: 0, Root: phase0.Root{0x51}}, Target: &phase0.Checkpoint{Epoch: phase0.Epoch(slot / 32), Root: phase0.Root{0x52}}}
-	attRoot, err := attData.HashTreeRoot()
-	if err != nil {
-		panic("c16 harness: " + err.Error())
+}
+
+func c16NewAggregatorInst(ctx context.Context, first map[string]string) c16Instance {
+	in := &c16AggregatorInst{c16NodeInst: c16NewNodeInst(ctx, "/eth/v1/validator/aggregate_attestation")}
+	accounts := c16AccountsProvider()
+	if first["account"] == "present" {
+		accounts = c16AccountsProvider(1)
 	}
-	node.Set("/eth/v1/validator/aggregate_attestation", c16Answer{Func: func(r *http.Request) c16Answer {
+	s, err := standardaggregator.New(ctx,
+		standardaggregator.WithLogLevel(c16LogLevel()),
+		standardaggregator.WithMonitor(nullmetrics.New()),
+		standardaggregator.WithSpecProvider(&c16Spec{}),
+		standardaggregator.WithChainTime(in.ct),
+		standardaggregator.WithValidatingAccountsProvider(accounts),
+		standardaggregator.WithAggregateAttestationProvider(in.client.(eth2client.AggregateAttestationProvider)),
+		standardaggregator.WithAggregateAttestationsSubmitter(in.rec),
+		standardaggregator.WithSlotSelectionSigner(&c16Signer{}),
+		standardaggregator.WithAggregateAndProofSigner(&c16Signer{}),
+	)
+	if err != nil {
+		panic("c16 harness: aggregator: " + err.Error())
+	}
+	in.s = s
+	return in
+}
+
+func (in *c16AggregatorInst) Prepare(_ int, sh map[string]string) {
+	// the aggregate is for the slot that is asked for
+	in.node.Set("/eth/v1/validator/aggregate_attestation", c16Answer{Func: func(r *http.Request) c16Answer {
 		if a, ok := c16BadAnswer(sh["body"]); ok {
 			return a
 		}
-		data := c16MustJSON(attData)
+		var slot uint64
+		fmt.Sscanf(r.URL.Query().Get("slot"), "%d", &slot)
+		data := c16MustJSON(c16AggregateData(slot))
 		bits := `"aggregation_bits":"0xff01",`
 		switch sh["body"] {
 		case "nullinner":
@@ -238,28 +310,18 @@ func c16RunAggregator(ctx context.Context, sh map[string]string) c16Res {
 		}
 		return c16JSON(fmt.Sprintf(`{"data":{%s"data":%s,"signature":"%#x"}}`, bits, data, make([]byte, 96)))
 	}})
-	client := c16NodeClient(ctx, node)
-	rec := &c16Recorder{}
-	accounts := c16AccountsProvider()
-	if sh["account"] == "present" {
-		accounts = c16AccountsProvider(1)
-	}
-	s, err := standardaggregator.New(ctx,
-		standardaggregator.WithLogLevel(c16LogLevel()),
-		standardaggregator.WithMonitor(nullmetrics.New()),
-		standardaggregator.WithSpecProvider(&c16Spec{}),
-		standardaggregator.WithChainTime(c16ChainTimeAt(slot)),
-		standardaggregator.WithValidatingAccountsProvider(accounts),
-		standardaggregator.WithAggregateAttestationProvider(client.(eth2client.AggregateAttestationProvider)),
-		standardaggregator.WithAggregateAttestationsSubmitter(rec),
-		standardaggregator.WithSlotSelectionSigner(&c16Signer{}),
-		standardaggregator.WithAggregateAndProofSigner(&c16Signer{}),
-	)
+}
+
+func (in *c16AggregatorInst) Invoke(ctx context.Context, k int, sh map[string]string) c16Res {
+	slot := c16ShiftedSlot(sh, k)
+	in.ct.SetSlot(slot)
+	attRoot, err := c16AggregateData(slot).HashTreeRoot()
 	if err != nil {
-		panic("c16 harness: aggregator: " + err.Error())
+		panic("c16 harness: " + err.Error())
 	}
-	s.Aggregate(ctx, &attestationaggregator.Duty{Slot: phase0.Slot(slot), AttestationDataRoot: attRoot, ValidatorIndex: 1, SlotSignature: phase0.BLSSignature{0x01}})
-	if rec.Count() == 0 {
+	before := in.rec.Count()
+	in.s.Aggregate(ctx, &attestationaggregator.Duty{Slot: phase0.Slot(slot), AttestationDataRoot: attRoot, ValidatorIndex: 1, SlotSignature: phase0.BLSSignature{0x01}})
+	if in.rec.Count() == before {
 		return c16Err("no aggregate submitted")
 	}
 	return c16OK("aggregate submitted")
@@ -282,22 +344,24 @@ func (*c16SyncAggregatorStub) SetBeaconBlockRoot(_ phase0.Slot, _ phase0.Root) {
 func (*c16SyncAggregatorStub) Aggregate(_ context.Context, _ *synccommitteeaggregator.Duty) {
 }
 
-func c16RunSyncMessenger(ctx context.Context, sh map[string]string) c16Res {
-	slot := c16Slots(sh)
-	node := c16NewNode(c16NodeVersion("teku"))
-	defer node.Close()
-	node.Set("/eth/v1/beacon/blocks/head/root", c16RootAnswer(sh["body"]))
-	client := c16NodeClient(ctx, node)
-	rec := &c16Recorder{}
+// ---- sync committee messenger
+
+type c16SyncMessengerInst struct {
+	*c16NodeInst
+	s *standardsyncmessenger.Service
+}
+
+func c16NewSyncMessengerInst(ctx context.Context, _ map[string]string) c16Instance {
+	in := &c16SyncMessengerInst{c16NodeInst: c16NewNodeInst(ctx, "/eth/v1/beacon/blocks/head/root")}
 	s, err := standardsyncmessenger.New(ctx,
 		standardsyncmessenger.WithLogLevel(c16LogLevel()),
 		standardsyncmessenger.WithProcessConcurrency(2),
 		standardsyncmessenger.WithMonitor(nullmetrics.New()),
-		standardsyncmessenger.WithChainTimeService(c16ChainTimeAt(slot)),
+		standardsyncmessenger.WithChainTimeService(in.ct),
 		standardsyncmessenger.WithSyncCommitteeAggregator(&c16SyncAggregatorStub{}),
 		standardsyncmessenger.WithSpecProvider(mock.NewSpecProvider()),
-		standardsyncmessenger.WithBeaconBlockRootProvider(client.(eth2client.BeaconBlockRootProvider)),
-		standardsyncmessenger.WithSyncCommitteeMessagesSubmitter(rec),
+		standardsyncmessenger.WithBeaconBlockRootProvider(in.client.(eth2client.BeaconBlockRootProvider)),
+		standardsyncmessenger.WithSyncCommitteeMessagesSubmitter(in.rec),
 		standardsyncmessenger.WithValidatingAccountsProvider(c16AccountsProvider(1, 2)),
 		standardsyncmessenger.WithSyncCommitteeRootSigner(&c16Signer{}),
 		standardsyncmessenger.WithSyncCommitteeSelectionSigner(&c16Signer{}),
@@ -306,6 +370,17 @@ func c16RunSyncMessenger(ctx context.Context, sh map[string]string) c16Res {
 	if err != nil {
 		panic("c16 harness: sync committee messenger: " + err.Error())
 	}
+	in.s = s
+	return in
+}
+
+func (in *c16SyncMessengerInst) Prepare(_ int, sh map[string]string) {
+	in.node.Set("/eth/v1/beacon/blocks/head/root", c16RootAnswer(sh["body"]))
+}
+
+func (in *c16SyncMessengerInst) Invoke(ctx context.Context, k int, sh map[string]string) c16Res {
+	slot := c16ShiftedSlot(sh, k)
+	in.ct.SetSlot(slot)
 	indices := map[phase0.ValidatorIndex][]phase0.CommitteeIndex{1: {3}, 2: {200, 300}}
 	if sh["accounts"] == "none" {
 		indices = map[phase0.ValidatorIndex][]phase0.CommitteeIndex{}
@@ -318,8 +393,8 @@ func c16RunSyncMessenger(ctx context.Context, sh map[string]string) c16Res {
 	case "somenil":
 		duty.SetAccount(1, c16Account(1))
 	}
-	prepErr := s.Prepare(ctx, duty)
-	msgs, err := s.Message(ctx, duty)
+	prepErr := in.s.Prepare(ctx, duty)
+	msgs, err := in.s.Message(ctx, duty)
 	if err != nil {
 		return c16Err(err.Error())
 	}
@@ -332,15 +407,41 @@ func c16RunSyncMessenger(ctx context.Context, sh map[string]string) c16Res {
 	return c16OK(fmt.Sprintf("%d messages", len(msgs)))
 }
 
-func c16RunSyncAggregator(ctx context.Context, sh map[string]string) c16Res {
-	slot := c16Slots(sh)
-	node := c16NewNode(c16NodeVersion("teku"))
-	defer node.Close()
-	node.Set("/eth/v1/beacon/blocks/head/root", c16RootAnswer("valid"))
-	node.Set("/eth/v1/validator/sync_committee_contribution", c16Answer{Func: func(r *http.Request) c16Answer {
+// ---- sync committee aggregator
+
+type c16SyncAggregatorInst struct {
+	*c16NodeInst
+	s *standardsyncaggregator.Service
+}
+
+func c16NewSyncAggregatorInst(ctx context.Context, _ map[string]string) c16Instance {
+	in := &c16SyncAggregatorInst{c16NodeInst: c16NewNodeInst(ctx, "/eth/v1/validator/sync_committee_contribution")}
+	in.node.Set("/eth/v1/beacon/blocks/head/root", c16RootAnswer("valid"))
+	s, err := standardsyncaggregator.New(ctx,
+		standardsyncaggregator.WithLogLevel(c16LogLevel()),
+		standardsyncaggregator.WithMonitor(nullmetrics.New()),
+		standardsyncaggregator.WithSpecProvider(mock.NewSpecProvider()),
+		standardsyncaggregator.WithChainTime(in.ct),
+		standardsyncaggregator.WithBeaconBlockRootProvider(in.client.(eth2client.BeaconBlockRootProvider)),
+		standardsyncaggregator.WithContributionAndProofSigner(&c16Signer{}),
+		standardsyncaggregator.WithValidatingAccountsProvider(c16AccountsProvider(1)),
+		standardsyncaggregator.WithSyncCommitteeContributionProvider(in.client.(eth2client.SyncCommitteeContributionProvider)),
+		standardsyncaggregator.WithSyncCommitteeContributionsSubmitter(in.rec),
+	)
+	if err != nil {
+		panic("c16 harness: sync committee aggregator: " + err.Error())
+	}
+	in.s = s
+	return in
+}
+
+func (in *c16SyncAggregatorInst) Prepare(_ int, sh map[string]string) {
+	in.node.Set("/eth/v1/validator/sync_committee_contribution", c16Answer{Func: func(r *http.Request) c16Answer {
 		if a, ok := c16BadAnswer(sh["body"]); ok {
 			return a
 		}
+		var slot uint64
+		fmt.Sscanf(r.URL.Query().Get("slot"), "%d", &slot)
 		bits := fmt.Sprintf(`"aggregation_bits":"%#x",`, make([]byte, 16))
 		switch sh["body"] {
 		case "emptybits":
@@ -350,39 +451,29 @@ func c16RunSyncAggregator(ctx context.Context, sh map[string]string) c16Res {
 		}
 		return c16JSON(fmt.Sprintf(`{"data":{"slot":"%d","beacon_block_root":"%#x","subcommittee_index":"0",%s"signature":"%#x"}}`, slot, phase0.Root{0xbb}, bits, make([]byte, 96)))
 	}})
-	client := c16NodeClient(ctx, node)
-	rec := &c16Recorder{}
-	s, err := standardsyncaggregator.New(ctx,
-		standardsyncaggregator.WithLogLevel(c16LogLevel()),
-		standardsyncaggregator.WithMonitor(nullmetrics.New()),
-		standardsyncaggregator.WithSpecProvider(mock.NewSpecProvider()),
-		standardsyncaggregator.WithChainTime(c16ChainTimeAt(slot)),
-		standardsyncaggregator.WithBeaconBlockRootProvider(client.(eth2client.BeaconBlockRootProvider)),
-		standardsyncaggregator.WithContributionAndProofSigner(&c16Signer{}),
-		standardsyncaggregator.WithValidatingAccountsProvider(c16AccountsProvider(1)),
-		standardsyncaggregator.WithSyncCommitteeContributionProvider(client.(eth2client.SyncCommitteeContributionProvider)),
-		standardsyncaggregator.WithSyncCommitteeContributionsSubmitter(rec),
-	)
-	if err != nil {
-		panic("c16 harness: sync committee aggregator: " + err.Error())
-	}
+}
+
+func (in *c16SyncAggregatorInst) Invoke(ctx context.Context, k int, sh map[string]string) c16Res {
+	slot := c16ShiftedSlot(sh, k)
+	in.ct.SetSlot(slot)
 	if sh["root"] == "known" {
-		s.SetBeaconBlockRoot(phase0.Slot(slot), phase0.Root{0xbb})
+		in.s.SetBeaconBlockRoot(phase0.Slot(slot), phase0.Root{0xbb})
 	}
-	s.Aggregate(ctx, &synccommitteeaggregator.Duty{
+	before := in.rec.Count()
+	in.s.Aggregate(ctx, &synccommitteeaggregator.Duty{
 		Slot:             phase0.Slot(slot),
 		ValidatorIndices: []phase0.ValidatorIndex{1},
 		SelectionProofs:  map[phase0.ValidatorIndex]map[uint64]phase0.BLSSignature{1: {0: {0x01}}},
 		Accounts:         map[phase0.ValidatorIndex]e2wtypes.Account{1: c16Account(1)},
 	})
-	if rec.Count() == 0 {
+	if in.rec.Count() == before {
 		return c16Err("no contribution submitted")
 	}
 	return c16OK("contribution submitted")
 }
 
 // c16DutiesBody renders the attester duties answer for a shape (epoch 2: slots 64..95).
-func c16DutiesBody(sh map[string]string) string {
+func c16DutiesBody(sh map[string]string, offset uint64) string {
 	type duty struct {
 		validator, slot, committee, length, atSlot, vci uint64
 	}
@@ -419,6 +510,9 @@ func c16DutiesBody(sh map[string]string) string {
 		}
 	}
 	entries := make([]string, 0, len(ds)+1)
+	for i := range ds {
+		ds[i].slot += offset
+	}
 	for _, d := range ds {
 		entries = append(entries, fmt.Sprintf(`{"pubkey":"%s","validator_index":"%d","committee_index":"%d","committee_length":"%d","committees_at_slot":"%d","validator_committee_index":"%d","slot":"%d"}`,
 			c16AccountPubkey(1).String(), d.validator, d.committee, d.length, d.atSlot, d.vci, d.slot))
@@ -429,13 +523,29 @@ func c16DutiesBody(sh map[string]string) string {
 	return fmt.Sprintf(`{"dependent_root":"%#x","execution_optimistic":false,"data":[%s]}`, phase0.Root{0xdd}, strings.Join(entries, ","))
 }
 
-func c16RunMergeDuties(ctx context.Context, sh map[string]string) c16Res {
-	node := c16NewNode(c16NodeVersion("teku"))
-	defer node.Close()
-	node.Set("/eth/v1/config/spec", c16JSON(c16SpecBody))
-	node.Set("/eth/v1/validator/duties/attester/", c16JSON(c16DutiesBody(sh)))
-	node.Set("/eth/v1/validator/attestation_data", c16AttestationDataAnswer("valid"))
-	client := c16NodeClient(ctx, node)
+// ---- attester duties -> MergeDuties -> Attest (the attester is the long-lived object)
+
+type c16MergeDutiesInst struct {
+	*c16NodeInst
+	s *standardattester.Service
+}
+
+func c16NewMergeDutiesInst(ctx context.Context, _ map[string]string) c16Instance {
+	in := &c16MergeDutiesInst{c16NodeInst: c16NewNodeInst(ctx, "/eth/v1/validator/attestation_data")}
+	in.node.Set("/eth/v1/config/spec", c16JSON(c16SpecBody))
+	in.node.Set("/eth/v1/validator/attestation_data", c16AttestationDataAnswer("valid"))
+	in.s = c16NewAttester(ctx, in.client, in.ct, in.rec)
+	return in
+}
+
+// c16DutyEpoch: the duties of call k are those of epoch 2 + 4(k-1).
+func c16DutyEpoch(k int) uint64 { return 2 + uint64(4*(k-1)) }
+
+func (in *c16MergeDutiesInst) Prepare(k int, sh map[string]string) {
+	in.node.Set("/eth/v1/validator/duties/attester/", c16JSON(c16DutiesBody(sh, (c16DutyEpoch(k)-2)*32)))
+}
+
+func (in *c16MergeDutiesInst) Invoke(ctx context.Context, k int, sh map[string]string) c16Res {
 	// the decoder is asked first (gated shape): an error or a panic inside the library means that the
 	// shape is not a value the library delivers
 	var resp *api.Response[[]*apiv1.AttesterDuty]
@@ -446,7 +556,7 @@ func c16RunMergeDuties(ctx context.Context, sh map[string]string) c16Res {
 				err = fmt.Errorf("decoder panicked: %v", r)
 			}
 		}()
-		resp, err = client.(eth2client.AttesterDutiesProvider).AttesterDuties(ctx, &api.AttesterDutiesOpts{Epoch: 2, Indices: []phase0.ValidatorIndex{1, 2, 3}})
+		resp, err = in.client.(eth2client.AttesterDutiesProvider).AttesterDuties(ctx, &api.AttesterDutiesOpts{Epoch: phase0.Epoch(c16DutyEpoch(k)), Indices: []phase0.ValidatorIndex{1, 2, 3}})
 	}()
 	if err != nil {
 		return c16Undeliverable(err.Error())
@@ -456,13 +566,13 @@ func c16RunMergeDuties(ctx context.Context, sh map[string]string) c16Res {
 	if err != nil {
 		return c16Err(err.Error())
 	}
-	rec := &c16Recorder{}
+	before := in.rec.Count()
 	failed := 0
 	for _, duty := range duties {
 		_ = duty.String()
 		_ = duty.Tuples()
-		s := c16NewAttester(ctx, client, uint64(duty.Slot()), rec)
-		if _, err := s.Attest(ctx, duty); err != nil {
+		in.ct.SetSlot(uint64(duty.Slot()))
+		if _, err := in.s.Attest(ctx, duty); err != nil {
 			failed++
 		}
 	}
@@ -472,13 +582,13 @@ func c16RunMergeDuties(ctx context.Context, sh map[string]string) c16Res {
 	case failed == len(duties):
 		return c16Err("every attestation failed")
 	}
-	return c16OK(fmt.Sprintf("%d duties, %d attestations", len(duties), rec.Count()))
+	return c16OK(fmt.Sprintf("%d duties, %d attestations", len(duties), in.rec.Count()-before))
 }
 
 func init() {
-	c16Register("attester", c16RunAttester)
-	c16Register("aggregator", c16RunAggregator)
-	c16Register("syncmessenger", c16RunSyncMessenger)
-	c16Register("syncaggregator", c16RunSyncAggregator)
-	c16Register("mergeduties", c16RunMergeDuties)
+	c16RegisterInstance("attester", c16NewAttesterInst)
+	c16RegisterInstance("aggregator", c16NewAggregatorInst)
+	c16RegisterInstance("syncmessenger", c16NewSyncMessengerInst)
+	c16RegisterInstance("syncaggregator", c16NewSyncAggregatorInst)
+	c16RegisterInstance("mergeduties", c16NewMergeDutiesInst)
 }
